@@ -25,10 +25,11 @@ enum Sym
     S_B,
     S_RFIX,
     S_IFIX,
-    S_REINIT, // last, so that recorded cases keep their numbering
+    S_REINIT,        // appended, so that recorded cases keep their numbering
+    S_REINIT_SETBUF, // the same through gstuff_autorecv::setbuf (configurable receivers only)
     NSYM
 };
-static const char *sym_name[NSYM] = {"START", "STOP", "STUB", "code(START)", "code(STOP)", "code(STUB)", "'a'", "'b'", "RFIX", "IFIX", "re-init"};
+static const char *sym_name[NSYM] = {"START", "STOP", "STUB", "code(START)", "code(STOP)", "code(STUB)", "'a'", "'b'", "RFIX", "IFIX", "re-init", "re-init(setbuf)"};
 
 struct RxModel : mc::Model
 {
@@ -96,6 +97,8 @@ struct RxModel : mc::Model
             return true;
         case S_REINIT:
             return true; // no bytes: handled in apply()
+        case S_REINIT_SETBUF:
+            return rig.codec != gs::LEGACY; // the legacy receiver has one set-up call only
         case S_IFIX:
         {
             // One IFIX between two marker bytes: the value is a function of the receiver's buffer, and a receiver that
@@ -120,13 +123,13 @@ struct RxModel : mc::Model
         if (!bytes_of(ops[op], bs))
             return false;
         hist += (char)('a' + op);
-        if (ops[op] == S_REINIT)
+        if (ops[op] == S_REINIT || ops[op] == S_REINIT_SETBUF)
         {
             // init()/setbuf() again on the same buffer, in whatever state the receiver is (buffer hand-over, link
             // restart).  From here on the receiver must behave like a fresh one.
             if (rig.mon.started || rig.mon.esc)
                 mc::nontrivial();
-            rig.reinit();
+            rig.reinit(ops[op] == S_REINIT_SETBUF ? 1 : 0);
             ifix_used = false;
             mc::outcome("re-init");
             return true;
